@@ -150,13 +150,22 @@ package runner
 //@   requires published: pub[e.root]
 //@   ensures  sound: result != nil ==> (exists j: int :: 0 <= j && j < len(deps) && reach(deps[j], e.root))
 //@   ensures  kind: result != nil ==> istype(result, "runner.CyclicDependencyError")
-//@   loop 0: invariant true
+//@   ensures  looks-only-forward: n_wload >= old(n_wload)
+//@   callsite check: assert checks-this-dependency: $1 == t
+//@   modifies n_wload
+//@   loop 0: invariant n_wload >= old(n_wload)
+//@   loop 0: step no-dependency-skipped: when true ensures err == nil && n_wload > old(n_wload)
 
 //@ func (*runner.engine).check
 //@   requires e != nil && e.root != nil && dep != nil
 //@   requires published: pub[e.root]
 //@   ensures  sound: result != nil ==> reach(dep, e.root)
 //@   ensures  kind: result != nil ==> istype(result, "runner.CyclicDependencyError")
+//@   ensures  finds-the-root: dep == e.root ==> result != nil
+//@   ensures  clears-only-after-looking: result == nil ==> n_wload > old(n_wload)
+//@   ensures  looks-only-forward: n_wload >= old(n_wload)
+//@   callsite checkDeps: assert walks-the-whole-waiting-set: arr($1) == arr(deref(waiting)) && len($1) == len(deref(waiting))
+//@   modifies n_wload
 
 //@ func (*runner.engine).EvaluateTargets
 //@   requires e != nil && e.runner != nil && e.runner.gate != nil && e.root != nil
